@@ -815,6 +815,11 @@ func RelayChain(depth int, inner dhcpv6.DHCPv6, idMask uint32) dhcpv6.DHCPv6 {
 			// an IPv4-mapped address is a legal 16-octet value of these fields
 			link, peer = net.ParseIP("::ffff:192.0.2.33"), net.ParseIP("::ffff:198.51.100.7")
 		}
+		if i == 1 && depth%2 == 1 {
+			// the client's link-local address in modified EUI-64 form (what ExtractMAC reads the MAC from);
+			// chains of even depth keep a non-EUI-64 peer, so the DUID fallback is exercised as well
+			peer = net.ParseIP("fe80::225:90ff:fe12:3456")
+		}
 		r := &dhcpv6.RelayMessage{MessageType: t, HopCount: uint8(i - 1), LinkAddr: link, PeerAddr: peer}
 		var ids dhcpv6.Options
 		if idMask>>(2*uint(i-1))&1 != 0 {
